@@ -399,6 +399,7 @@ Verdict propSynthesis(Ctx& c) {
   c.show << "synthesis ids=" << idSeed << "\n operand1:\n" << sp1.str("   ") << " operand2 (" << modeNames[sec.mode] << "):\n" << sec.spec.str("   ");
   if (!sec.extraMoves.empty()) { c.show << "   extra moves:"; for (auto& m : sec.extraMoves) c.show << " " << m.what << "<" << m.where; c.show << "\n"; }
   c.show << " table:" << eqStr(table, sp1, sec.spec);
+  sgen::debugShow(c);
   c.exec();
   ccl::tools::EntityGenerator::VerifSeed(idSeed * 7919ULL + 29ULL);
 
@@ -510,6 +511,7 @@ Verdict propEquate(Ctx& c) {
   const Spec sp = withDuplicates(c, sgen::genSpec(c, o), 2, triple);
   const auto table = genTable(c, sp, sp, true);
   c.show << "equate ids=" << idSeed << "\n" << sp.str("   ") << " table:" << eqStr(table, sp, sp);
+  sgen::debugShow(c);
   c.exec();
   ccl::tools::EntityGenerator::VerifSeed(idSeed * 7919ULL + 31ULL);
   RSForm s; std::vector<EntityUID> uids;
@@ -609,6 +611,7 @@ Verdict propDuplicates(Ctx& c) {
   bool triple = false;
   const Spec sp = withDuplicates(c, sgen::genSpec(c, o), 4, triple);
   c.show << "duplicates ids=" << idSeed << "\n" << sp.str("   ");
+  sgen::debugShow(c);
   c.exec();
   ccl::tools::EntityGenerator::VerifSeed(idSeed * 7919ULL + 37ULL);
   RSForm s; std::vector<EntityUID> uids;
@@ -648,6 +651,7 @@ Verdict propMerge(Ctx& c) {
   const Second sec = genSecond(c, sp1, o);
   static const char* modeNames[] = {"independent", "variant", "copy-shared-uids", "same-object"};
   c.show << "merge ids=" << idSeed << "\n target:\n" << sp1.str("   ") << " merged-in (" << modeNames[sec.mode] << "):\n" << sec.spec.str("   ");
+  sgen::debugShow(c);
   c.exec();
   ccl::tools::EntityGenerator::VerifSeed(idSeed * 7919ULL + 41ULL);
   RSForm s1; std::vector<EntityUID> uids1, uids2;
